@@ -246,6 +246,16 @@ Definition kml_document (s : tlayer) (x y z : Z) : kml_doc :=
     end
   end.
 
+(* ---- kml.py _tile_bbox_to_wgs: the LatLonBox written into the document.  T = grid.srs.transform_bbox_to(SRS(4326), ..) is
+   PROJ (external).  For grids in SRS(900913) a rectangle whose lower / upper edge lies within 1/10 unit of the border of the
+   mercator WORLD (+-20037508.342789244, a constant - not the border of the grid) is extended to the pole. *)
+Definition kml_bbox_to_wgs (T : bbox -> bbox) (merc : bool) (world tenth pole : Z) (src : bbox) : bbox :=
+  let '(b0, b1, b2, b3) := T src in
+  if merc then
+    let '(_, s1, _, s3) := src in
+    (b0, (if Z.abs (s1 - (- world)) <? tenth then - pole else b1), b2, (if Z.abs (s3 - world) <? tenth then pole else b3))
+  else (b0, b1, b2, b3).
+
 (* ---- WMS-C: GetMap with tiled=true (layer.py CacheMapLayer.get_map/_check_tiled/_image) *)
 Inductive wmsc_result := WLoaded (c : coord) | WBlank | WRefused.
 
